@@ -30,7 +30,7 @@ ALL_MUTS = ["unkTemplate", "unkArg", "unkParRef", "unkParTmpl", "unkStep", "self
             "missingWfArg", "missingEntry", "wfCycle", "badRef", "refToWf", "refToMissing", "dataCycle", "methodless",
             "dupExec", "noExec", "execNoStep", "digitName", "unkEntry", "entryUnkArg"]
 
-INVARIANTS = ["TypeOK", "PathsUnique", "OnePerStep", "NoParamLeft", "BindingsAsDeclared", "RefsResolve", "Acyclic",
+INVARIANTS = ["TypeOK", "PathsUnique", "OnePerStep", "NoParamLeft", "BindingsAsDeclared", "FilesAsWritten", "RefsResolve", "Acyclic",
               "RelationInduced", "ValidPartCompiles", "MutationsReject", "RejectedHasLocation"]
 
 HANG_CPU_SECONDS = 3.0      # a compilation takes ~5 ms; the timer counts CPU time of this process (ITIMER_VIRTUAL)
@@ -508,7 +508,7 @@ def run(tier):
     cases.sort(key=lambda c: json.dumps(c["ch"], sort_keys=True))
     from .. import realenv  # noqa: F401  (silences the runtime's logging, imports the package once)
     nvalid = sum(1 for c in cases if c["verdict"] == "compiled")
-    runner = Runner(chk, graph_every=max(1, nvalid // (150 if tier == "quick" else 500)))
+    runner = Runner(chk, graph_every=max(1, nvalid // (150 if tier == "quick" else 300)))
     for case in cases:
         runner.run_case(case)
     keys = {}
